@@ -257,7 +257,12 @@ let lim_check (c : lcase) (o : lobs) =
             let later = L.exists (fun (j, g) -> j > i && g.fok && denom_of_asset c g.fdebt = dn) (L.mapi (fun j g -> (j, g)) fills) in
             let charge = zz_of_z (snd (LimitBid.fill_recs f.fdebt f.fcoll f.fprem f.fD f.fwhos s)) in
             let x = if later then Z.max Z.zero (Z.min charge remaining.(d)) else remaining.(d) in
-            remaining.(d) <- Z.sub remaining.(d) x; x
+            remaining.(d) <- Z.sub remaining.(d) x;
+            (* the settlement against what the records were charged: less = the bid was cut down to the
+               left-over collateral or a later bid of the closure overwrote the auction update (C10) *)
+            bump (if Z.sign x < 0 then "fill:settlement-net-inflow" else if Z.lt x charge then "fill:settlement<charged"
+                  else if Z.equal x charge then "fill:settlement=charged" else "fill:settlement>charged");
+            x
           | _ -> Z.zero in
       (* branch statistics, on the model's records *)
       if f.fok then begin
